@@ -19,5 +19,9 @@ Definition chk_idle (idle ooo slack expect_rows : Z) (emits : list (Z * Z)) (del
       let by_idle := match last_emit_before td emits with Some l => idle - slack <=? td - l | None => false end in
       negb (by_event || by_idle)) dels in
   let total := fold_left (fun acc d => acc + snd d) dels 0 in
+  (* if the producer itself stalled for the idle timeout (an overloaded machine), an idle firing in the
+     middle of the stream is legitimate and later rows are rightly late: the loss clause is then not judged *)
+  let stalled := (fix gaps (l : list (Z * Z)) : bool :=
+                    match l with a :: ((b :: _) as r) => (idle - slack <=? fst b - fst a) || gaps r | _ => false end) emits in
   (if early then [IEarlyFire] else [])
-  ++ (match dels with [] => [INeverFired] | _ => if total =? expect_rows then [] else [IRowsLost] end).
+  ++ (match dels with [] => [INeverFired] | _ => if (total =? expect_rows) || stalled then [] else [IRowsLost] end).
